@@ -24,6 +24,7 @@ import (
 	"perun.network/go-perun/channel"
 	"perun.network/go-perun/channel/multi"
 	"perun.network/go-perun/log"
+	"perun.network/go-perun/simhook"
 	"perun.network/go-perun/watcher"
 	"polycry.pt/poly-go/sync"
 )
@@ -200,6 +201,7 @@ func (w *Watcher) StopWatching(_ context.Context, id channel.ID) error {
 	if !ok {
 		return errors.New("channel not registered with the watcher")
 	}
+	simhook.Yield("watcher.StopWatching.retrieved")
 
 	parent := ch
 	if ch.isSubChannel() {
@@ -422,11 +424,13 @@ func (ch *ch) handleRegisteredEvent(
 		return
 	}
 	defer parent.subChsAccess.Unlock()
+	simhook.Yield("watcher.handleRegisteredEvent.locked")
 
 	log := log.WithFields(log.Fields{"ID": e.ID(), "Version": e.Version()})
 	log.Debug("Received registered event from chain")
 
 	latestTx := ch.txRetriever.retrieve()
+	simhook.Yield("watcher.handleRegisteredEvent.retrieved")
 	log.Debugf("Latest version is (%d)", latestTx.Version)
 
 	// A higher version is available and has not been registered previously.
